@@ -1186,6 +1186,74 @@ fn gen_window(cx: &mut Cx, rng: &mut Rng, n: usize) {
     }
 }
 
+/// `locate_footer_window` on files LARGER than its 16 MiB search window — the only inputs on which the
+/// doubling branch of the real function runs.  The byte-level model cannot hold such inputs; its
+/// bytes-free window plan (`windowplan`, linked to the loop by the Lean theorem C22_window_plan) gives
+/// the windows, and `find_last_valid_footer` (C31's function) applied to each window in that order
+/// gives the prediction.  Independent oracle: no panic, and the answer equals the harness's own
+/// restatement (smallest window of 16 MiB · 2^k, clamped to the file, that holds a valid footer).
+fn gen_window_big(cx: &mut Cx, rng: &mut Rng, n: usize) {
+    const MIB: usize = 1 << 20;
+    let lens = [16 * MIB + 1, 17 * MIB, 24 * MIB + 5, 32 * MIB, 33 * MIB + 7, 40 * MIB];
+    for i in 0..n {
+        let len = lens[i % lens.len()];
+        let mut buf = vec![0u8; len];
+        // 0 = no footer anywhere; otherwise one valid footer at a position aimed at a window boundary
+        let mode = if i < lens.len() { 0 } else { 1 + rng.below(4) };
+        let mut planted: Option<usize> = None;
+        if mode > 0 {
+            let tl = 24usize;
+            let p = match mode {
+                1 => len - 16 * MIB / 2,                                   // inside the first window
+                2 => (len - 16 * MIB).saturating_sub(rng.usize(1, 4000)).max(tl + 1), // just before the first window
+                3 => (len.saturating_sub(32 * MIB)).saturating_sub(rng.usize(0, 100)).max(tl + 1), // around the second window's start
+                _ => tl + 1 + rng.usize(0, 1000),                          // near the start of the file
+            }.min(len - FOOTER_SIZE);
+            for (j, b) in buf[p - tl..p].iter_mut().enumerate() { *b = (j as u8).wrapping_mul(13).wrapping_add(1); }
+            let toc = buf[p - tl..p].to_vec();
+            let f = CommitFooter { toc_len: tl as u64, toc_hash: *blake3::hash(&toc).as_bytes(), generation: 7 + i as u64 };
+            buf[p..p + FOOTER_SIZE].copy_from_slice(&f.encode());
+            planted = Some(p);
+        }
+        let label = format!("len={len} planted={planted:?}");
+        // implementation
+        let b2 = buf.clone();
+        let imp = match guarded(move || vh::locate_footer_window(&b2)) {
+            Ok(Some((fo, start, g))) => format!("ok {fo} {start} {g}"),
+            Ok(None) => "ok none".to_string(),
+            Err(m) => format!("panic {}", clean(&m)),
+        };
+        // independent oracle
+        let mut want = "ok none".to_string();
+        let mut window = (16 * MIB).min(len);
+        loop {
+            let start = len - window;
+            if let Some(sl) = find_last_valid_footer(&buf[start..]) { want = format!("ok {} {} {}", sl.footer_offset, start, sl.footer.generation); break; }
+            if window == len { break; }
+            window = (window * 2).min(len);
+        }
+        // model: plan (Lean) + find_last_valid_footer per window
+        let model = cx.ask(&format!("windowplan {len}")).map(|a| {
+            let starts: Vec<usize> = a.strip_prefix("ok ").unwrap_or("").split(',').filter_map(|x| x.parse().ok()).collect();
+            let mut r = "ok none".to_string();
+            for st in starts {
+                if st > len { r = "bad-plan".into(); break; }
+                if let Some(sl) = find_last_valid_footer(&buf[st..]) { r = format!("ok {} {} {}", sl.footer_offset, st, sl.footer.generation); break; }
+            }
+            r
+        });
+        cx.sum.branch(&format!("dec.windowbig.{}", if imp.starts_with("panic") { "panic" } else if imp == "ok none" { "none" } else if imp.split(' ').nth(2) == Some(&(len - (16 * MIB).min(len)).to_string()) { "first-window" } else { "later-window" }));
+        let case = json!({"kind": "windowbig", "len": len, "planted": planted, "label": label});
+        cx.sum.case(&format!("windowbig|{label}|{imp}"), true, || json!({"dec": "windowbig", "label": label, "impl": imp}));
+        if imp.starts_with("panic") {
+            cx.sum.oracle_violation("decoder-windowbig-panic", &format!("locate_footer_window [{label}]: {imp}"), case.clone());
+        } else if imp != want {
+            cx.sum.oracle_violation("locate-footer-window-wrong-footer", &format!("locate_footer_window [{label}] = {imp}, the smallest doubling window with a valid footer gives {want}"), case.clone());
+        }
+        if let Some(m) = model { if m != imp { cx.sum.disagreement("decoder windowbig (Lean window plan + find_last_valid_footer)", case, &m, &imp); } }
+    }
+}
+
 fn wal_record(seq: u64, payload: &[u8]) -> Vec<u8> {
     let mut r = Vec::new();
     r.extend_from_slice(&seq.to_le_bytes());
@@ -1683,7 +1751,13 @@ fn main() {
         let case = load_replay(args.replay_file.as_ref().expect("replay file"));
         let input = case.get("input").cloned().unwrap_or(case);
         let mut cx = Cx { drv: drv_holder.as_mut(), sum: &mut sum, known, tmp: dir.path().join("w"), n: 0, trace: true };
-        if input["kind"] == "dec" {
+        if input["kind"] == "windowbig" {
+            // the generator is deterministic in the seed: regenerate the family (the failing file is among them)
+            println!("replay of a large-file `locate_footer_window` case regenerates the family ({})", input["label"].as_str().unwrap_or(""));
+            let mut r = Rng::new(args.seed);
+            for _ in 0..6 { let _ = r.fork(); }
+            gen_window_big(&mut cx, &mut r.fork(), 24);
+        } else if input["kind"] == "dec" {
             let dec = input["dec"].as_str().unwrap_or("").to_string();
             let a: Vec<String> = input["args"].as_array().map(|v| v.iter().map(|x| x.as_str().unwrap_or("").to_string()).collect()).unwrap_or_default();
             match dec.as_str() {
@@ -1736,6 +1810,7 @@ fn main() {
         gen_readtoc(&mut cx, &mut rng.fork(), 250 * scale, &real_toc);
         gen_scan(&mut cx, &mut rng.fork(), 120 * scale, &real_toc);
         gen_window(&mut cx, &mut rng.fork(), 150 * scale);
+        gen_window_big(&mut cx, &mut rng.fork(), if scale > 1 { 24 } else { 9 });
         gen_wal(&mut cx, &mut rng.fork(), 400 * scale);
         gen_wal_append(&mut cx, &mut rng.fork(), 120 * scale);
         gen_ti(&mut cx, &mut rng.fork(), 300 * scale);
